@@ -514,3 +514,21 @@ impl Source for TestSource {
         self.hint.then(|| self.audio.frames())
     }
 }
+
+/// All channels from one family.
+pub fn gen_audio_family(rng: &mut Rng, channels: usize, bps: usize, rate: usize, len: usize, fam: &str) -> Audio {
+    let mut samples = vec![0i32; len * channels];
+    for ch in 0..channels {
+        let c = gen_channel(rng, fam, bps, len);
+        for (t, x) in c.iter().enumerate() {
+            samples[t * channels + ch] = *x;
+        }
+    }
+    Audio {
+        channels,
+        bps,
+        rate,
+        samples,
+        recipe: format!("{fam}x{channels}"),
+    }
+}
